@@ -8,7 +8,7 @@
    np.where behaviour of the code at /repo HEAD, [complements_fixed]/[where_fixed] the proposed repairs
    (notes/C14.fix-1.diff, notes/C14.fix-2.diff), [complements_pinned]/[where_pinned] the unrepaired code. *)
 From Coq Require Import ZArith List Bool String.
-From BNP Require Import Base.Prims Model.C14 Corr.C14 Proofs.C14 Proofs.C14_link Gen.C14 Bridge.C14.
+From BNP Require Import Base.Prims Model.C14 Corr.C14 Proofs.C14 Proofs.C14_mask Proofs.C14_link Gen.C14 Bridge.C14.
 Import ListNotations.
 Open Scope Z_scope.
 
@@ -54,7 +54,8 @@ Theorem C14_stranded_fixed :
 Proof. exact stranded_fixed_thm. Qed.
 Print Assumptions C14_stranded_fixed.
 
-(* the code at HEAD: upper case in ASCII, and the interval set must extract more bases than it has intervals *)
+(* phase-1 statement kept for the record (guards: upper case in ASCII, more bases than intervals); it holds for either
+   setting of [where_rows] and is superseded by C14_stranded_head below, which has neither guard *)
 Theorem C14_stranded_partial :
   forall minus ez ref ivs, In ez [0; 1; 2] ->
     Forall (fun c => In c (domain_pinned ez)) ref -> Forall (iv_valid ref) ivs ->
@@ -104,45 +105,78 @@ Theorem C14_revcomp_head :
 Proof. exact (revcomp_all complements domain grid_head). Qed.
 Print Assumptions C14_revcomp_head.
 
-(* HEAD still calls npstructures' np.where *)
-Theorem C14_head_where : where_rows = where_pinned.
+(* ---- round 6: the np.where repair (notes/C14.fix-2.final.diff, helper broadcast_row_mask) is in the library ---- *)
+(* the model in force uses the row-wise choice; the tie of this choice to the regenerated mask expression is in
+   C14_source_tie (conjuncts b_row_mask .. b_transcripts_full) *)
+Theorem C14_head_where : where_rows = where_fixed.
 Proof. exact head_where. Qed.
 Print Assumptions C14_head_where.
 
-(* strand-aware extraction at HEAD, positive part: full symbol domain (lower case included), both routes, every valid
-   interval set that extracts MORE bases than it has intervals *)
+(* IN FORCE.  Strand-aware extraction at HEAD, both routes (get_strand_specific_sequences: minus = true;
+   GenomicSequence.extract_intervals: minus = false), the three encodings, all ten symbols: EVERY set of valid intervals —
+   any number of them, empty ones, all of them empty, single 1-base intervals, more intervals than extracted bases —
+   gives ref[a:b] for '+' and its reverse complement for '-'.  No size guard. *)
 Theorem C14_stranded_head :
-  forall ez, In ez [0; 1; 2] -> forall minus ref ivs,
+  forall ez minus ref ivs, In ez [0; 1; 2] ->
     Forall (fun c => In c (domain ez)) ref -> Forall (iv_valid ref) ivs ->
-    len ivs < total_bases ivs ->
-    model_stranded complements where_pinned minus ez ref ivs = Ok (map (spec_stranded (map (canon ez) ref)) ivs).
-Proof. exact stranded_head_ok. Qed.
+    model_stranded complements where_rows minus ez ref ivs = Ok (map (spec_stranded (map (canon ez) ref)) ivs).
+Proof. exact stranded_head_full. Qed.
 Print Assumptions C14_stranded_head.
-(* ... and the guard is exact: on EVERY valid input outside it (intervals >= bases: the remaining known finding) the
-   call raises, it never returns a wrong sequence *)
-Theorem C14_stranded_head_fails :
-  forall ez, In ez [0; 1; 2] -> forall minus ref ivs,
-    Forall (fun c => In c (domain ez)) ref -> Forall (iv_valid ref) ivs ->
-    total_bases ivs <= len ivs ->
-    model_stranded complements where_pinned minus ez ref ivs = Err 5.
-Proof. exact stranded_head_err. Qed.
-Print Assumptions C14_stranded_head_fails.
 
-(* genes.get_transcript_sequences: every list of transcripts (any number of exons each, concatenated in order) on an
-   ACGTN-encoded reference: spliced sequence for '+', reverse complement of the spliced sequence for '-'; raises exactly
-   when there are at least as many transcripts as extracted bases *)
+(* IN FORCE.  genes.get_transcript_sequences at HEAD: every list of transcripts (any number of exons each, concatenated in
+   order; also fewer bases than transcripts) on an ACGTN-encoded reference: spliced sequence for '+', reverse complement of
+   the spliced sequence for '-' *)
 Theorem C14_transcripts_head :
   forall ref txs, Forall (fun c => In c dna10) ref -> Forall (tx_valid ref) txs ->
-    (len txs < tx_bases txs ->
-       model_transcripts complements where_pinned ref txs = Ok (map (spec_transcript (map (canon 2) ref)) txs))
-    /\ (tx_bases txs <= len txs -> model_transcripts complements where_pinned ref txs = Err 5).
-Proof. exact (fun ref txs Hr Ht => conj (transcripts_head_ok ref txs Hr Ht) (transcripts_head_err ref txs Hr Ht)). Qed.
+    model_transcripts complements where_rows ref txs = Ok (map (spec_transcript (map (canon 2) ref)) txs).
+Proof. exact transcripts_head_full. Qed.
 Print Assumptions C14_transcripts_head.
+(* the same statement with the tables written out as [complements_fixed] / [where_fixed] (phase-3 name) *)
 Theorem C14_transcripts_fixed :
   forall ref txs, Forall (fun c => In c dna10) ref -> Forall (tx_valid ref) txs ->
     model_transcripts complements_fixed where_fixed ref txs = Ok (map (spec_transcript (map (canon 2) ref)) txs).
 Proof. exact transcripts_fixed_ok. Qed.
 Print Assumptions C14_transcripts_fixed.
+
+(* IN FORCE.  The repaired mask itself, for any rows x, y of equal shape (any number of rows of any lengths, also none / all
+   empty) and a mask with one entry per row: np.where with the explicit row mask — RaggedArray(np.repeat(mask, lengths),
+   lengths) broadcast over either operand, then npstructures' flat np.where with the mask's shape — is the row-wise choice
+   and never raises *)
+Theorem C14_row_mask_where :
+  forall over_x mask x y, List.length mask = List.length x -> same_shape x y ->
+    where_call row_mask_of over_x mask x y = Ok (choose_rows mask x y)
+    /\ split_lens (repeat_each mask (map len x)) (map len x) = row_mask_of mask x.
+Proof. exact row_mask_where_thm. Qed.
+Print Assumptions C14_row_mask_where.
+
+(* ---- HISTORY: the code BEFORE the np.where repair ([where_pinned]: mask handed over as `(..)[:, np.newaxis]`, npstructures
+   broadcasts it only when mask.size < data.size).  Kept to document the former finding C14-stranded-where-not-broadcast;
+   a call site reverted to that form is now a VIOLATION (bridge + correspondence). ---- *)
+(* positive part: every valid interval set that extracts MORE bases than it has intervals *)
+Theorem C14_stranded_pinned_where :
+  forall ez, In ez [0; 1; 2] -> forall minus ref ivs,
+    Forall (fun c => In c (domain ez)) ref -> Forall (iv_valid ref) ivs ->
+    len ivs < total_bases ivs ->
+    model_stranded complements where_pinned minus ez ref ivs = Ok (map (spec_stranded (map (canon ez) ref)) ivs).
+Proof. exact stranded_head_ok. Qed.
+Print Assumptions C14_stranded_pinned_where.
+(* ... and the guard was exact: on EVERY valid input outside it (intervals >= bases) the call raised, it never returned a
+   wrong sequence *)
+Theorem C14_stranded_pinned_where_fails :
+  forall ez, In ez [0; 1; 2] -> forall minus ref ivs,
+    Forall (fun c => In c (domain ez)) ref -> Forall (iv_valid ref) ivs ->
+    total_bases ivs <= len ivs ->
+    model_stranded complements where_pinned minus ez ref ivs = Err 5.
+Proof. exact stranded_head_err. Qed.
+Print Assumptions C14_stranded_pinned_where_fails.
+(* genes.get_transcript_sequences before the repair: correct when len txs < tx_bases txs, raised on exactly the complement *)
+Theorem C14_transcripts_pinned_where :
+  forall ref txs, Forall (fun c => In c dna10) ref -> Forall (tx_valid ref) txs ->
+    (len txs < tx_bases txs ->
+       model_transcripts complements where_pinned ref txs = Ok (map (spec_transcript (map (canon 2) ref)) txs))
+    /\ (tx_bases txs <= len txs -> model_transcripts complements where_pinned ref txs = Err 5).
+Proof. exact (fun ref txs Hr Ht => conj (transcripts_head_ok ref txs Hr Ht) (transcripts_head_err ref txs Hr Ht)). Qed.
+Print Assumptions C14_transcripts_pinned_where.
 
 (* translation, decided for EVERY list of byte strings: rows that split into codons over ACGTacgt are translated codon
    by codon; anything else (N/n or any other symbol; a row length that is not a multiple of three, even when the total
@@ -158,7 +192,7 @@ Proof. exact translate_total. Qed.
 Print Assumptions C14_translate_total.
 
 (* the link for every case class of the correspondence: on a well-formed case (symbols of the encoding, valid
-   intervals / exons outside the known-finding class, byte strings) "the implementation agrees with the model"
+   intervals / exons — since round 6 with NO size guard —, byte strings) "the implementation agrees with the model"
    implies "the implementation satisfies the property" *)
 Theorem C14_link : forall c, case_wf c = true -> model_ok c = true -> prop_ok c = true.
 Proof. exact link_all. Qed.
@@ -195,10 +229,25 @@ Theorem C14_source_tie :
   /\ (forall rows,
         model_translate rows
         = model_translate_gen gen_window_size (str gen_codon_alphabet) (str gen_amino_acids) gen_kmer_weight
-                              gen_window_reversed gen_length_check gen_out_length rows).
+                              gen_window_reversed gen_length_check gen_out_length rows)
+  (* round 6: the regenerated broadcast_row_mask and the mask form / broadcast operand of each of the three sites *)
+  /\ (gen_row_mask_shape_is_lengths = true
+      /\ forall mask s, List.length mask = List.length s -> gen_row_mask mask s = row_mask_of mask s)
+  /\ (fst gen_dna_mask = true /\ fst gen_genomic_mask = true /\ fst gen_genes_mask = true)
+  /\ (forall keys ez ref ivs,
+        model_stranded keys where_rows true ez ref ivs
+        = model_stranded_site keys (site_where gen_dna_mask) gen_dna_where gen_dna_slice_start gen_dna_slice_stop ez ref ivs)
+  /\ (forall keys ez ref ivs,
+        model_stranded keys where_rows false ez ref ivs
+        = model_stranded_site keys (site_where gen_genomic_mask) gen_genomic_where (fun a _ => a) (fun _ b => b) ez ref ivs)
+  /\ (forall keys ref txs,
+        model_transcripts keys where_rows ref txs
+        = model_extract keys (site_where gen_genes_mask) gen_genes_where 2 ref tx_ext tx_strand txs).
 Proof.
   exact (conj b_complements (conj b_ascii_table (conj b_new_alphabet (conj b_alpha_values (conj b_dna_flags
-        (conj b_stranded_dna (conj b_stranded_genomic (conj b_genes_where (conj b_transcripts (conj b_translate_tables b_translate)))))))))).
+        (conj b_stranded_dna (conj b_stranded_genomic (conj b_genes_where (conj b_transcripts (conj b_translate_tables
+        (conj b_translate (conj b_row_mask (conj b_mask_forms (conj b_stranded_dna_full (conj b_stranded_genomic_full
+         b_transcripts_full))))))))))))))).
 Qed.
 Print Assumptions C14_source_tie.
 
@@ -221,10 +270,13 @@ Proof. vm_compute. repeat split; reflexivity. Qed.
 Example C14_nonvacuous_phase3 :
   model_transcripts complements where_rows (str "ACGTNAc") [([(0, 3); (3, 6)], 45); ([(6, 7)], 43)] = Ok [str "TNACGT"; str "C"]
   /\ gen_wf (str "ACGTNAc") [([(0, 3); (3, 6)], 45); ([(6, 7)], 43)] = true
-  /\ model_transcripts complements where_rows (str "ACGTNAc") [([(2, 3)], 45)] = Err 5
+  /\ model_transcripts complements where_rows (str "ACGTNAc") [([(2, 3)], 45)] = Ok [str "C"]
+  /\ model_transcripts complements where_pinned (str "ACGTNAc") [([(2, 3)], 45)] = Err 5
+  /\ gen_wf (str "ACGTNAc") [([(2, 3)], 45)] = true
   /\ model_translate [str "ACN"] = Err 1 /\ model_translate [str "ACGTT"; str "A"] = Err 2
   /\ tr_wellformed [str "ACGTT"; str "A"] = false /\ tr_wellformed [str "ACGtaa"; []] = true
   /\ rev_wf 0 [str "acgtn"; []] = true /\ str_wf 0 0 (str "ACgtn") [(0, 3, 45); (2, 2, 43)] = true
+  /\ str_wf 1 2 (str "ACgtn") [(2, 3, 45)] = true /\ str_wf 0 1 (str "ACgt") [(2, 2, 45); (0, 0, 43)] = true
   /\ tr_wf [str "ACN"] = true
   /\ seq_wf [str "ACGtaa"; []; str "ATG"] = true
   /\ seq_model [str "ACGtaa"] 3 = Ok [str "LR"] /\ seq_spec [str "ACGtaa"] 3 = [str "LR"].
@@ -238,3 +290,21 @@ Example C14_nonvacuous :
      = Ok [str "ACGT"; str "CGTNNAC"; []]
   /\ model_translate [str "ACGTAT"; []; str "TTTtaa"] = Ok [str "TY"; []; str "F*"].
 Proof. vm_compute. repeat split; reflexivity. Qed.
+
+(* round 6: the formerly failing class computes (one 1-base '-' interval; an all-empty set; more intervals than bases), on both
+   routes; the same inputs still fail in the pre-repair model; the row mask of the repaired code on rows of lengths 1, 0, 2 *)
+Example C14_nonvacuous_round6 :
+  model_stranded complements where_rows true 0 (str "ACGTT") [(2, 3, 45)] = Ok [str "C"]
+  /\ model_stranded complements where_rows false 2 (str "ACGTT") [(2, 3, 45)] = Ok [str "C"]
+  /\ model_stranded complements where_rows true 1 (str "ACGT") [(2, 2, 45); (0, 0, 43)] = Ok [[]; []]
+  /\ model_stranded complements where_rows false 2 (str "ACgTn") [(2, 3, 45); (0, 0, 43); (0, 1, 43); (4, 5, 45)]
+     = Ok [str "C"; []; str "A"; str "N"]
+  /\ model_stranded complements where_pinned true 0 (str "ACGTT") [(2, 3, 45)] = Err 5
+  /\ model_stranded complements where_pinned true 1 (str "ACGT") [(2, 2, 45); (0, 0, 43)] = Err 5
+  /\ row_mask_of [true; false; true] [str "A"; []; str "CG"] = [[true]; []; [true; true]]
+  /\ gen_row_mask [true; false; true] [str "A"; []; str "CG"] = [[true]; []; [true; true]]
+  /\ where_call row_mask_of false [true; false; true] [str "T"; []; str "CG"] [str "A"; []; str "CG"] = Ok [str "T"; []; str "CG"]
+  /\ site_where gen_dna_mask [true] [str "G"] [str "C"] = Ok [str "G"]
+  /\ where_pinned [true] [str "G"] [str "C"] = Err 5
+  /\ same_shape [str "T"; []; str "CG"] [str "A"; []; str "CG"].
+Proof. vm_compute. repeat split; try reflexivity. repeat constructor. Qed.
